@@ -19,6 +19,7 @@
 #include "myth_init_func.h"
 #include "myth_misc_func.h"
 #include "myth_worker_func.h"
+#include "myth_verif.h"
 
 /* allocate a node (internal or leaf) of a tls tree */
 static inline myth_tls_tree_node_t *
@@ -272,6 +273,7 @@ myth_tls_key_allocator_alloc(myth_tls_key_allocator_t * s,
     myth_tls_key_entry_t * ke = s->free;
     if (ke) {
       myth_tls_key_entry_t * next = ke->next;
+      MYTH_VERIF_POINT(KEY_ALLOC_BEFORE_CAS);
       if (__sync_bool_compare_and_swap(&s->free, ke, next)) {
 	/* mark the key as used */
 	ke->next = (myth_tls_key_entry_t *)-1;
@@ -300,6 +302,7 @@ myth_tls_key_allocator_dealloc(myth_tls_key_allocator_t * s, int key) {
     /* try to push the cell to the free list */
     myth_tls_key_entry_t * head = s->free;
     ke->next = head;
+    MYTH_VERIF_POINT(KEY_DEALLOC_BEFORE_CAS);
     if (__sync_bool_compare_and_swap(&s->free, head, ke)) {
       return f;
     }
